@@ -2,6 +2,7 @@
 import tables as T
 from cfg import cfg_of
 from flow import Taint, Tracker, callee_matches, field_reads, op_local, prep, backward, locals_of_type
+from rules import final_edges
 from rules import CallGuard, CallSink, CmpGuard, RetSink, AggSink, BlockSink, FieldOptGuard, compare_sites
 from rules import PL
 from props.C04 import call_results, agg_field_operands
@@ -86,6 +87,26 @@ def run(R):
         R.gate("C05.acc.quorum", acc, CallSink(SRACT), [[g_q]], descr="accumulate: success only once a version's distinct responders reach the quorum")
         R.gate("C05.acc.quorum.remove", acc, CallSink("*OccupiedEntry<'a, K, V, A>::remove", "*OccupiedEntry::remove"), [[g_q]],
                descr="accumulate: the pending entry is taken out only at quorum")
+        # ... and always then: a version reaching the quorum concludes the query in that very call (entry taken out, callers
+        # answered).  This is what makes the quorum-met branch of handle_get_record_finished — which has no target check —
+        # unreachable; a query left pending at quorum ("wait for the remaining expected holders") brings it to life
+        prep(acc)
+        n_q, acc_q, _ = g_q.edges(acc)
+        if acc_q:
+            R.must_pass("C05.acc.concludes", acc, [("pending entry removed", CallSink("*OccupiedEntry<'a, K, V, A>::remove", "*OccupiedEntry::remove"))],
+                        from_blocks=tuple(d for _, d in acc_q), descr="accumulate: at quorum the query is always concluded in the same call")
+        # every version of a split result takes part in the transaction union: the loop over the versions has no early exit, and a
+        # chain over them has no adaptor that stops at (or skips to) some element
+        GT = ["ant_networking::transactions::get_transactions_from_record", "*::get_transactions_from_record"]
+        if CallSink(*GT, in_closures=False).blocks(acc):
+            R.loop_exhaustive("C05.acc.tx.all", acc, CallSink(*GT, in_closures=False), "accumulate: every version of a split result is offered to the transaction union", "the versions of the result map")
+        STOPPING = ("::map_while", "::take_while", "::take", "::skip", "::skip_while", "::step_by", "::nth", "::find", "::find_map", "::last", "::position")
+        stop_sites = [(b, c) for b in F.item(ACC) for c in b.calls_raw if (c["ncallee"] or c["ngen"] or "").endswith(STOPPING)
+                      and any("hash::map::Values<" in str(a) and "XorName" in str(a) for a in (c.get("arg_tys") or [])[:1])]
+        for b, c in stop_sites:
+            R.viol("C05.acc.tx.chain", "versions-cut:%s" % (c["ncallee"] or c["ngen"]).split("::")[-1], "accumulate_get_record_found walks the versions of a split result through %s: versions behind that point "
+                   "never reach the union / the split report" % (c["ncallee"] or c["ngen"]), b, c["line"])
+        R.inst("C05.acc.tx.chain", "K1 forbidden-callee", "no stopping / skipping adaptor directly on result_map.values()", len(acc.calls), not stop_sites)
         # the count compared is that of the version just updated: responded_peers ∈ {len(), 1}
         prep(acc)
         # (comparisons of the quorum with a literal, e.g. `expected_answers > 1`, say nothing about the count and are not judged here)
@@ -368,6 +389,15 @@ def run(R):
         R.must_call("C05.senders.sract", SRACT, SEND, "send_record_after_checking_target sends to every sender")
 
     # de-dup arm
+    # a GetNetworkRecord caller is answered only by the handlers that conclude the query (accumulate / finished / timeout), where the
+    # quorum, single-version and target tests sit: the command handler itself never sends on a get-record sender (a joiner served
+    # from the partial result map would get one version while the query's first caller gets the split)
+    hnc0 = R.body("C05.answer.who", HNC)
+    if hnc0 is not None:
+        early = [(b, c) for b in F.item(HNC) for c in b.calls if (c["ncallee"] or "").endswith("oneshot::Sender::send") and "GetRecordError" in str((c.get("arg_tys") or [""])[0])]
+        for b, c in early:
+            R.viol("C05.answer.who", "answered-by-handler", "handle_network_cmd sends on a GetNetworkRecord caller's channel itself: that caller's outcome bypasses the quorum / split / target decisions", b, c["line"])
+        R.inst("C05.answer.who", "K1 forbidden-callee", "handle_network_cmd never answers a get-record caller itself", len(hnc0.calls), not early)
     hnc = R.body("C05.dedup", HNC)
     if hnc is not None:
         prep(hnc)
@@ -469,6 +499,17 @@ def run(R):
         if not folds:
             R.viol("C05.merge.reg.all", "fold-missing", "no fold closure merging the collected registers found", sp, sp.lines[0])
         R.must_call("C05.merge.reg.merge", SPLIT, ["ant_registers::register::SignedRegister::merge", "ant_registers::register::SignedRegister::verified_merge"], "registers are merged (set union of ops)")
+        # ... and what is handed back is that union, never one of the copies: the register serialised into the answer is, on every
+        # path, the result of the fold over all collected copies
+        from flow import must_be_copy_of
+        folds_res = {b["term"]["d"][0] for b in sp.blocks if b["term"]["k"] == "call" and not b["cleanup"] and (b["term"]["ngen"] or b["term"]["ncallee"] or "").endswith(("Iterator::fold", "Iterator::try_fold", "Iterator::reduce"))
+                     and "SignedRegister" in str(sp.locals.get(str(b["term"]["d"][0]), ""))}
+        sers = [b for b in sp.blocks if b["term"]["k"] == "call" and not b["cleanup"] and callee_matches(b["term"], ["ant_protocol::storage::header::try_serialize_record"])
+                and "SignedRegister" in str(sp.locals.get(str(op_local(b["term"]["args"][0])), ""))]
+        okr = bool(folds_res) and bool(sers) and all(must_be_copy_of(sp, op_local(b["term"]["args"][0]), folds_res) for b in sers)
+        if not okr:
+            R.viol("C05.merge.reg.result", "not-the-union", "handle_split_record_error can answer with a register that is not the union folded over all collected copies (an arbitrary copy is picked on some path)", sp, sp.lines[0])
+        R.inst("C05.merge.reg.result", "K6 flows-to (must)", "split registers: the register handed back is the fold's result on every path", len(sers), okr)
         ext = [b for b in sp.blocks if b["term"]["k"] == "call" and not b["cleanup"] and (b["term"]["ncallee"] or "").endswith("HashSet<T, S, A> as core::iter::traits::collect::Extend<T>>::extend")]
         txs = Taint(sp, through="all").closure(call_results(["ant_networking::transactions::get_transactions_from_record", "*::get_transactions_from_record"])(sp))
         oku = bool(ext) and all(op_local(b["term"]["args"][1]) in txs for b in ext)
